@@ -38,6 +38,8 @@ ASAN_ENV_BIG = {'ASAN_OPTIONS': 'allocator_may_return_null=1:max_allocation_size
 
 SIG_F14 = 'open:hdr-length-trusted-beyond-eof:attr-values'
 SIG_CNT = 'open:hdr-length-trusted-beyond-eof:list-count'
+SIG_FILLFILE = 'api:file-borne-_FillValue-unchecked-in-inq_var_fill'
+TSIZE = {1: 1, 2: 1, 3: 2, 4: 4, 5: 4, 6: 8, 7: 1, 8: 2, 9: 4, 10: 8, 11: 8}
 
 
 def local_findings(V):
@@ -270,7 +272,7 @@ LEAN_PREFIX = []         # 'VARIANT ...' lines, set by run_check after the varia
 VARIANT = dict(int63=False, eof=False)
 
 
-def lean_batch(drv, lines, timeout=1500):
+def lean_batch(drv, lines, timeout=7200):
     """answers of the Lean driver for the request lines (split over PAR driver processes)"""
     from concurrent.futures import ThreadPoolExecutor
 
@@ -547,6 +549,64 @@ def script_failure(rc, lines, err):
 
 
 # ------------------------------------------------------------------------------------------
+# S4d: specification-valid files whose variable carries a _FillValue attribute of any type / length
+# ------------------------------------------------------------------------------------------
+def fill_schema(fmt, vt, at, n, rec, begin=0):
+    """one variable v (fixed: v(x=3), record: v(t)) of type vt with an attribute _FillValue of type `at` and
+    `n` elements - all of it legal in the file format; schema in the syntax of checks/c04.py"""
+    att = dict(name=b'_FillValue', type=at, nelems=n, value=bytes([1]) * (n * TSIZE[at]))
+    dims = [dict(name=b't', size=0)] if rec else [dict(name=b'x', size=3)]
+    elems = 1 if rec else 3
+    vlen = (elems * TSIZE[vt] + 3) // 4 * 4
+    return dict(fmt=fmt, numrecs=1 if rec else 0, dims=dims, gatts=[],
+                vars=[dict(name=b'v', dimids=[0], atts=[att], type=vt, vsize=vlen, begin=begin)]), vlen
+
+
+def gen_fill_files(rng, tier, c04drv):
+    """-> list of dict(name, data): encoded by the Lean specification encoder (Header.encodeRaw via c04drv ENC)"""
+    import c04
+    params = []
+    for fmt in ((1, 2, 5) if tier == 'thorough' else (1, 5)):
+        types = list(range(1, 7)) if fmt < 5 else list(range(1, 12))
+        for vt in types:
+            ats = types if tier == 'thorough' else sorted({vt, rng.choice([t for t in types if t != vt])})
+            for at in ats:
+                for n in (0, 1, 2):
+                    for rec in (False, True):
+                        params.append((fmt, vt, at, n, rec))
+    save = list(LEAN_PREFIX)
+    LEAN_PREFIX[:] = []               # (c04drv has its own variant lines; ENC does not depend on them)
+    try:
+        r1 = lean_batch(c04drv, ['ENC ' + ' '.join(c04.schema_tokens(fill_schema(*pp)[0])) for pp in params])
+        xs = [int(l.split()[1]) for l in r1]
+        r2 = lean_batch(c04drv, ['ENC ' + ' '.join(c04.schema_tokens(fill_schema(*pp, begin=x)[0])) for pp, x in zip(params, xs)])
+    finally:
+        LEAN_PREFIX[:] = save
+    out = []
+    for pp, x, l in zip(params, xs, r2):
+        hdr = bytes.fromhex(l.split()[0])
+        if len(hdr) != x:
+            raise RuntimeError('Lean encoder: header length changed between the two passes')
+        out.append(dict(name='fill:fmt%d:var-type%d:_FillValue-type%d-nelems%d:%s' % (pp[0], pp[1], pp[2], pp[3], 'rec' if pp[4] else 'fixed'),
+                        params=pp, data=hdr + bytes(fill_schema(*pp)[1])))
+    return out
+
+
+def judge_fill(case, ans):
+    """-> (class, None | (sig, text))"""
+    if ans.startswith('FILL') and 'close=' in ans:
+        return 'clean', None
+    if ans.startswith('FILL open=') and ans.split()[1] != 'open=0':
+        return 'open-refused', ('fill:valid-file-refused', 'a specification-valid file is refused by ncmpi_open: %s' % ans[:200])
+    if 'ncmpio_inq_var_fill' in ans:
+        return 'crash:inq_var_fill', (SIG_FILLFILE, '%s: %s' % (case['name'], ans[:700]))
+    if ans.startswith('CRASH'):
+        sig = crash_sig('fill', ans)
+        return 'crash:' + sig, (sig, '%s: %s' % (case['name'], ans[:700]))
+    return ans.split()[0].lower(), ('fill:' + ans.split()[0].lower(), '%s: %s' % (case['name'], ans[:300]))
+
+
+# ------------------------------------------------------------------------------------------
 # S4c: witnesses
 # ------------------------------------------------------------------------------------------
 def be32(n):
@@ -725,7 +785,7 @@ def run_check(tier, seed):
             log('[S1] scratch build evicted during the compile, rebuilding')
     try:
         # ---- S3
-        ok, out = lake_build(['PnVerif.Props.C19', 'c19drv'])
+        ok, out = lake_build(['PnVerif.Props.C19', 'c19drv', 'c04drv'])
         failed_thms = set()
         if not ok:
             for f, ln, msg in lake_errors(out):
@@ -916,19 +976,43 @@ def run_check(tier, seed):
             if f:
                 fails.append((f[0], f[1], dict(script=text, nprocs=1, replay='mpiexec -n 1 apirun(asan build) <script> out')))
         log('[S4b] %d + %d API scripts (%d result lines) on the sanitizer build in %.1fs' % (nprog, nmisc, napi, t1.s()))
+        # ---- S4d files with _FillValue attributes of every type / length 0,1,2 (valid headers from the Lean encoder)
+        t1 = Timer()
+        c04drv = os.path.join(LEAN, '.lake/build/bin/c04drv')
+        nfill = 0
+        if os.path.exists(c04drv):
+            fcases = gen_fill_files(rng, tier, c04drv)
+            fdir = os.path.join(wd, 'fill')
+            os.makedirs(fdir)
+            for i, c in enumerate(fcases):
+                c['path'] = os.path.join(fdir, '%d.nc' % i)
+                open(c['path'], 'wb').write(c['data'])
+            fans = run_open_par(open_a, [c['path'] + ' FILL' for c in fcases], wd, 'fill', ASAN_ENV, secs=10, fork=1)
+            for c, a in zip(fcases, fans):
+                cls, failing = judge_fill(c, a)
+                dist['fillfile:' + cls] = dist.get('fillfile:' + cls, 0) + 1
+                nfill += 1
+                if cls != 'clean':
+                    distinct.add(hashlib.sha1(c['data']).hexdigest())
+                if failing:
+                    fails.append((failing[0], failing[1], dict(case=c['name'], file_hex=c['data'].hex(), implementation=a[:1500],
+                                                               harness='harness/c19_open.c (sanitizer build), request `<file> FILL`')))
+            log('[S4d] %d files with a _FillValue attribute (every type, 0/1/2 elements, fixed + record variable) in %.1fs' % (nfill, t1.s()))
+        else:
+            tie.append(dict(what='c04drv (Lean specification encoder) is not built: the _FillValue file stream did not run'))
         # ---- S4c witnesses
         t1 = Timer()
         wres = witnesses(V, tree_p, tree_a, wd, api_a, open_p, open_a, drv, tier)
         log('[S4c] witnesses in %.1fs: %s' % (t1.s(), ' '.join('%s=%s' % (w['id'], 'reproduced' if w['reproduced'] else 'not-reproduced') for w in wres)))
         # ---- evidence
-        V.cov['evaluations'] = nmal + n2 + napi + len(tl) + len(wres)
+        V.cov['evaluations'] = nmal + n2 + napi + nfill + len(tl) + len(wres)
         V.cov['distinct_nontrivial'] = len(distinct)
         V.cov['traces_validated_against_impl'] = nmal - len(tie)
         V.cov['rule'] = ('S4a: seed files of CDF-1/2/5 written by the real library; every truncation point, every 4-byte-aligned header word replaced by each of %d 32-bit and %d 64-bit '
                          'extreme values, by its own value +-1 and by ndims-1/ndims/ndims+1 (quick tier: all truncations of one format, a third of the others, all off-by-one neighbours, a seeded fifth of the dictionary substitutions; thorough: all), random 2-4-field '
                          'corruptions and 1-3 bit flips; each opened by the sanitizer build in a forked child (open, inq, every dim/att/var inquiry, inq_varoffset, a read of every variable, '
                          'close) and compared with the model verdict incl. bytes fetched. non-trivial = the answer is not a plain OK; distinct = distinct sha1(file). '
-                         'S4b: API scripts on the sanitizer build; S4c: one process per known defect' % (len(DICT4), len(DICT8)))
+                         'S4b: API scripts on the sanitizer build; S4c: one process per known defect; S4d: valid files (Lean encoder) whose variable has a _FillValue of any type with 0/1/2 elements, then inq_var_fill, converting out-of-range put + iput, fill_var_rec, redefinition in fill mode' % (len(DICT4), len(DICT8)))
         V.cov['distribution'] = dict(sorted(dist.items()))
         V.cov['api_tags'] = dict(sorted(tags.items()))
         V.cov['witnesses'] = wres
